@@ -55,4 +55,6 @@ props_lin.SPECS['C13']['extra'] = list(props_lin.SPECS['C13'].get('extra', [])) 
 props_sim.SPECS['C06']['extra'] = list(props_sim.SPECS['C06'].get('extra', [])) + [(props_sim.GROUP_FAST, props_sim.gen_fast_c06)]
 for _pid, _specs in (('C13', props_lin.SPECS), ('C03', props_alg.SPECS), ('C11', props_est.SPECS)):
     _specs[_pid]['extra'] = list(_specs[_pid].get('extra', [])) + [(props_lin.GROUP_DBL, props_lin.gen_dbl_inttypes)]
+props_sim.SPECS['C07']['extra'] = list(props_sim.SPECS['C07'].get('extra', [])) + [(props_sim.GROUP_FAST, props_sim.gen_fast_c07)]
+props_est.SPECS['C12']['extra'] = list(props_est.SPECS['C12'].get('extra', [])) + [(props_lin.GROUP_DBL, props_lin.gen_dbl_c12)]
 NOT_CLAIMED = {}
